@@ -77,3 +77,98 @@ package impl
 //@   ensures len(args) == 3 && cerr == nil && (tvC(c) == TV_F || tvC(c) == TV_U) ==> res == evalRes(args[2], K, N, input) && err == evalErr(args[2], K, N, input)
 //@   ensures len(args) == 2 && cerr == nil && (tvC(c) == TV_F || tvC(c) == TV_U) ==> err == nil && len(res) == 0
 //@   assigns nothing
+//
+// ---- C08: numeric functions agree with exact arithmetic, or give empty / an error --------
+//
+//@ func Abs(ctx, input, args) (res, err)
+//@   requires validColl(input)
+//@   ensures len(input) == 0 ==> err == nil && len(res) == 0
+//@   ensures len(input) > 0 && len(args) != 0 ==> is(err, ErrWrongArity)
+//@   ensures len(input) == 1 && len(args) == 0 && isInteger(input[0]) && inInt32(absI(intOf(input[0]))) ==> err == nil && len(res) == 1 && res[0] == mkInt(absI(intOf(input[0])))
+//@   ensures len(input) == 1 && len(args) == 0 && isInteger(input[0]) && !inInt32(absI(intOf(input[0]))) ==> err != nil || len(res) == 0
+//@   ensures len(input) == 1 && len(args) == 0 && isDecimalV(input[0]) ==> err == nil && len(res) == 1 && res[0] == mkDec(absR(decOf(input[0])))
+//@   assigns nothing
+//
+//@ func Ceiling(ctx, input, args) (res, err)
+//@   requires validColl(input)
+//@   ensures len(input) == 0 ==> err == nil && len(res) == 0
+//@   ensures len(input) > 0 && len(args) != 0 ==> is(err, ErrWrongArity)
+//@   ensures len(input) == 1 && len(args) == 0 && isNum(input[0]) && inInt32(ceilR(numOf(input[0]))) ==> err == nil && len(res) == 1 && res[0] == mkInt(ceilR(numOf(input[0])))
+//@   ensures len(input) == 1 && len(args) == 0 && isNum(input[0]) && !inInt32(ceilR(numOf(input[0]))) ==> err != nil || len(res) == 0
+//@   assigns nothing
+//
+//@ func Floor(ctx, input, args) (res, err)
+//@   requires validColl(input)
+//@   ensures len(input) == 0 ==> err == nil && len(res) == 0
+//@   ensures len(input) > 0 && len(args) != 0 ==> is(err, ErrWrongArity)
+//@   ensures len(input) == 1 && len(args) == 0 && isNum(input[0]) && inInt32(floorR(numOf(input[0]))) ==> err == nil && len(res) == 1 && res[0] == mkInt(floorR(numOf(input[0])))
+//@   ensures len(input) == 1 && len(args) == 0 && isNum(input[0]) && !inInt32(floorR(numOf(input[0]))) ==> err != nil || len(res) == 0
+//@   assigns nothing
+//
+//@ func Truncate(ctx, input, args) (res, err)
+//@   requires validColl(input)
+//@   ensures len(input) == 0 ==> err == nil && len(res) == 0
+//@   ensures len(input) > 0 && len(args) != 0 ==> is(err, ErrWrongArity)
+//@   ensures len(input) == 1 && len(args) == 0 && isNum(input[0]) && inInt32(truncR(numOf(input[0]))) ==> err == nil && len(res) == 1 && res[0] == mkInt(truncR(numOf(input[0])))
+//@   ensures len(input) == 1 && len(args) == 0 && isNum(input[0]) && !inInt32(truncR(numOf(input[0]))) ==> err != nil || len(res) == 0
+//@   assigns nothing
+//
+// round() with no argument: the Decimal rounded half away from zero at 0 places
+//@ func Round(ctx, input, args) (res, err)
+//@   requires ctx != nil && validColl(input)
+//@   requires forall k int :: 0 <= k && k < len(args) ==> args[k] != nil
+//@   ensures len(input) == 0 ==> err == nil && len(res) == 0
+//@   ensures len(input) > 1 ==> err != nil
+//@   ensures len(input) == 1 && len(args) > 1 ==> is(err, ErrWrongArity)
+//@   ensures len(input) == 1 && len(args) == 0 && isNum(input[0]) ==> err == nil && len(res) == 1 && res[0] == mkDec(real(roundHA(numOf(input[0]))))
+//@   assigns nothing
+//
+// powInt32: the exact integer power when it fits an int32 (ok), otherwise !ok; terminates.
+//@ func powInt32(base, exp) (res, ok)
+//@   ensures exp == 0 ==> ok && res == 1
+//@   ensures exp < 0 ==> ok && res == 0
+//@   ensures exp == 1 ==> ok && res == base
+//@   ensures exp == 2 ==> ok == inInt32(int(base) * int(base)) && (ok ==> int(res) == int(base) * int(base))
+//@   ensures exp == 3 ==> ok == inInt32(int(base) * int(base) * int(base)) && (ok ==> int(res) == int(base) * int(base) * int(base))
+//@   ensures exp > 0 && ok ==> (base == 0 ==> res == 0) && (base == 1 ==> res == 1)
+//@   loop 1:
+//@     invariant 2 <= i && i <= int(exp) + 1 && exp >= 1
+//@     invariant inInt32(result) && absI(int(base)) >= 2 && absI(result) >= 2 * (int(i) - 1)
+//@     invariant i == 2 ==> result == int(base)
+//@     invariant i == 3 ==> result == int(base) * int(base)
+//@     invariant i == 4 ==> result == int(base) * int(base) * int(base)
+//@     decreases int(exp) + 1 - int(i)
+//@   assigns nothing
+//
+//@ func toDecimal(input) (res, err)
+//@   requires validColl(input)
+//@   ensures len(input) != 1 ==> err != nil
+//@   ensures len(input) == 1 && isNum(input[0]) ==> err == nil && res == numOf(input[0])
+//@   ensures len(input) == 1 && (isStringV(input[0]) || istype(input[0], system.Boolean)) ==> err != nil
+//@   assigns nothing
+//
+//@ func integerResult(value) (res)
+//@   requires value == real(truncR(value))
+//@   ensures inInt32(truncR(value)) ==> len(res) == 1 && res[0] == mkInt(truncR(value))
+//@   ensures !inInt32(truncR(value)) ==> len(res) == 0
+//@   assigns nothing
+//
+// power(exponent) on Integers: exact when it fits, empty on overflow; empty exponent -> empty
+//@ func Power(ctx, input, args) (res, err)
+//@   requires ctx != nil && validColl(input)
+//@   requires forall k int :: 0 <= k && k < len(args) ==> args[k] != nil
+//@   let K = ctx.ExternalConstants
+//@   let N = ctx.Now
+//@   let ev = evalRes(args[0], K, N, input)
+//@   let everr = evalErr(args[0], K, N, input)
+//@   let ints = len(args) == 1 && everr == nil && len(input) == 1 && len(ev) == 1 && isInteger(input[0]) && isInteger(ev[0])
+//@   ensures len(input) == 0 ==> err == nil && len(res) == 0
+//@   ensures len(input) > 0 && len(args) != 1 ==> is(err, ErrWrongArity)
+//@   ensures len(input) > 0 && len(args) == 1 && everr != nil ==> err != nil
+//@   ensures len(input) > 0 && len(args) == 1 && everr == nil && len(ev) == 0 ==> err == nil && len(res) == 0
+//@   ensures ints && intOf(ev[0]) == 0 ==> err == nil && len(res) == 1 && res[0] == mkInt(1)
+//@   ensures ints && intOf(ev[0]) == 1 ==> err == nil && len(res) == 1 && res[0] == input[0]
+//@   ensures ints && intOf(ev[0]) == 2 && inInt32(intOf(input[0]) * intOf(input[0])) ==> err == nil && len(res) == 1 && res[0] == mkInt(intOf(input[0]) * intOf(input[0]))
+//@   ensures ints && intOf(ev[0]) == 2 && !inInt32(intOf(input[0]) * intOf(input[0])) ==> err == nil && len(res) == 0
+//@   ensures ints && intOf(ev[0]) == 3 && !inInt32(intOf(input[0]) * intOf(input[0]) * intOf(input[0])) ==> err == nil && len(res) == 0
+//@   assigns nothing
